@@ -413,6 +413,10 @@ def r13_4(ctx):
                 if p.end[0] == "stop":
                     ini = [x for x in p.events if x[0] == "set" and x[1] == V]
                     init_ok = bool(ini) and ini[-1][3] in (("param", 2), ("local", 2))
+        # ... and no action is skipped: every way round the loop applies the action of that iteration
+        its = [p for p in lp.iteration_paths(Sym(f, copies=True))]
+        skipped = [p for p in its if not any(e[0] == "call" and e[1] == TRAIT + "::filter" for e in p.events)]
+        r.ob("fold:every-action-applied", bool(its) and not skipped, f.loc(lp.line), "%d of %d ways round the loop do not call the action's filter" % (len(skipped), len(its)))
         r.ob("fold:threads-list", threaded and init_ok, f.loc(lp.line), "each action receives the list produced by the previous one (starting from the caller's list) and its result replaces it")
         rets = {p.end[1] for p in s.paths(start=lp.exit) if p.end[0] == "ret"}
         r.ob("fold:returns-list", V is not None and rets <= {("param", V), ("local", V)} and bool(rets), f.site, "returns %s" % [show(x, f) for x in rets])
@@ -436,7 +440,7 @@ def r13_4(ctx):
             okb = kinds == {True}
             detail = "each iteration builds the action of its filter and keeps it iff the operation is known"
         r.ob("chain:one-action-per-filter", okb, g.site, detail if okb else "FilterHeaderAction::new does not keep exactly the filters whose operation is known, in order (%s)" % detail)
-    ctx.run_rule("R13.4", "FilterHeaderAction::filter folds in forward order", body, floor=5)
+    ctx.run_rule("R13.4", "FilterHeaderAction::filter folds in forward order", body, floor=6)
 
 
 def r13_5(ctx):
